@@ -56,6 +56,22 @@ times (the lines of its body + what the loops inside one copy cost) -/
 theorem expansion_cost_closed_form (bs : List Block) (h : depthList bs ≤ MAX_EXPANSION_PASSES) :
     cost bs = costL bs := costIter_eq_costL MAX_EXPANSION_PASSES bs h
 
+/-- the limits the code declares **now** (regenerated into `Generated/ParserLimits.lean` on every run)
+leave the programs of the property's quantifier inside the premise of the theorem: nesting depth 2,
+ranges of length 6, bodies of up to 100 lines. Lowering a limit below that breaks this obligation. -/
+theorem limits_cover_the_quantified_programs :
+    2 < MAX_EXPANSION_PASSES ∧ (6 : Int) ≤ MAX_LOOP_ITERATIONS ∧ 6 * (100 + 6 * 100) ≤ MAX_EXPANDED_LINES := by
+  decide
+
+/-- the extended specification that the check also judges against (range bounds may be placeholders
+of enclosing loops, "triangular" nests) is the same text and the same hand expansion on the programs
+of the theorem above -/
+theorem extended_specification_agrees (unit : Nat) (bs : List Block) (env : List (Text × Int)) :
+    xrenderList unit 0 (Block.toXList bs) = renderList unit 0 bs ∧
+    xhandList env (Block.toXList bs) = handList env bs ∧
+    XBlock.toBlockList? (Block.toXList bs) = some bs :=
+  ⟨xrenderList_toX unit 0 bs, xhandList_toX bs env, toBlockList_toX bs⟩
+
 /-! Non-vacuity: the premise holds for the documented shape (DESIGN.md, Appendix A) and for a nested
 program with a continuation line, an inclusive range, a negative start and a shadowed variable. -/
 
